@@ -68,6 +68,8 @@ def case_coq(case):
         calls.append('(P1 (PText %s %s))' % (gfile_coq(c[1]), sk_coq(c[2])))
       elif c[0] == 'file':
         calls.append('(P1 (PFile %s %s))' % (C.cstr(subst(c[1], d)), sk_coq(c[2])))
+      elif c[0] == 'bind':     # ['bind', scope, selector, param, int]: gin.bind_parameter from Python
+        calls.append('(PBindApi %s %s %s %s)' % (C.cstr(c[1]), C.cstr(c[2]), C.cstr(c[3]), C.out(P.canon_lit(c[4]))))
       else:   # ['fab', files, bindings(list of strings), finalize or None, sk]
         calls.append('(PFilesBindings %s %s %s %s)' % (
             C.cstrs([subst(f, d) for f in c[1]]), gfile_coq('\n'.join(c[2])),
@@ -98,6 +100,33 @@ def err_obs(e):
   for m in re.finditer(r'\n  In (?:file "(.*?)",|bindings string) line (\d+)', str(e)):
     chain.append([m.group(1) or '', int(m.group(2))])
   return T('Err', type(e).__name__, chain)
+
+
+class PluginFinder:
+  """importable modules whose import registers configurables with the gin that is current at import time"""
+
+  def __init__(self, plugins, received):
+    self.plugins = plugins
+    self.received = received
+
+  def find_spec(self, name, path=None, target=None):
+    import importlib.util
+    if name in self.plugins:
+      return importlib.util.spec_from_loader(name, self)
+    return None
+
+  def create_module(self, spec):
+    return None
+
+  def exec_module(self, module):
+    gin = sys.modules['gin']
+    for sel in self.plugins[module.__name__]:
+      name = sel.split('.')[-1]
+      env = {'rec': self.received, 'sel': sel}
+      exec('def %s(a=None, b=None, **kw):\n  rec.append((sel, dict(locals())))\n  return (sel,)\n' % name, env)  # pylint: disable=exec-used
+      fn = env[name]
+      fn.__module__ = None
+      setattr(module, name, gin.configurable(name, module='.'.join(sel.split('.')[:-1]) or None)(fn))
 
 
 class TextMachine:
@@ -135,6 +164,12 @@ class TextMachine:
           self.mods.append(n)
           if i > 1:
             setattr(sys.modules['.'.join(parts[:i - 1])], parts[i - 1], mod)
+    self.finder = None
+    if case.get('plugins'):
+      self.finder = PluginFinder(case['plugins'], self.received)
+      for n in case['plugins']:
+        sys.modules.pop(n, None)
+      sys.meta_path.insert(0, self.finder)
     # files: reader 0 = the default (real files under the case directory), others in memory
     shutil.rmtree(self.dir, ignore_errors=True)
     for r, fs in enumerate(case['files']):
@@ -154,6 +189,11 @@ class TextMachine:
       self.cfg.add_config_file_search_path(subst(p, self.dir))
 
   def close(self):
+    if self.finder is not None:
+      if self.finder in sys.meta_path:
+        sys.meta_path.remove(self.finder)
+      for n in self.case['plugins']:
+        sys.modules.pop(n, None)
     shutil.rmtree(self.dir, ignore_errors=True)
     for n in self.mods:
       sys.modules.pop(n, None)
@@ -190,6 +230,9 @@ class TextMachine:
       if c[0] == 'text':
         inc, imps = gin.parse_config(c[1], skip_unknown=sk_py(c[2])) if c[2] is not None else gin.parse_config(c[1])
         o = T('Ok', list(imps), [self.tree(x) for x in inc])
+      elif c[0] == 'bind':
+        gin.bind_parameter('%s%s.%s' % (c[1] + '/' if c[1] else '', c[2], c[3]), c[4])
+        o = T('Ok')
       elif c[0] == 'fab':
         kw = {}
         if c[3] is not None:
